@@ -1,0 +1,10 @@
+package gcs
+
+// Simulation point sites (see simPoint). They have no effect unless the
+// package is built with the "verif" tag.
+const (
+	siteReadValue = iota + 1 // about to decode one value from the bit stream
+	siteQueryLoop            // between two iterations of a query loop
+	siteCopied               // just took the private copy of the filter bytes
+	siteCount
+)
